@@ -274,6 +274,24 @@ func runPostOps(sc *bw.Scenario, book *simkit.TapeBook, w *world, cl *closure, r
 					out.Probe("reopened-through-link")
 				}
 			}
+			if sc.LinkRoots && sc.Seed%2 == 1 {
+				// the bundle directory copied to a place whose name lies outside Latin-1
+				cp := "/w/\u043a\u043e\u043f\u0438\u044f"
+				simkit.ForceRemoveAll(cp)
+				copyTree(root, cp)
+				if b5, err := sourcebundle.OpenDir(cp); err != nil {
+					out.Violate("C09", "reopen-fails", "open-copy", fmt.Sprintf("OpenDir of a copy of the bundle directory named %s fails: %v", cp, err))
+				} else {
+					if d := diffLists(orig, fingerprint(b5, cp, sc, cl)); d != "" {
+						out.Violate("C09", "reopen-differs", "accessors-copy", "a copy of the bundle directory under another name answers differently: "+d)
+					}
+					if err := b5.WriteArchive(io.Discard); err != nil {
+						out.Violate("C09", "archive-fails", "write-copy", fmt.Sprintf("WriteArchive of a copy of the bundle directory named %s fails: %v", cp, err))
+					}
+				}
+				simkit.ForceRemoveAll(cp)
+				out.Probe("reopened-as-a-copy")
+			}
 			out.Probe("reopened")
 		case "ship":
 			runShip(sc, book, cl, res, orig, log, out, sc.PipeBreak, "/w/extracted")
